@@ -111,6 +111,7 @@ type FuncSpec struct {
 	Closure   bool   // the contract is about the function literal this function returns (its free variables are the outer parameters)
 	InputOnly bool   // `inputs`: the spec only states input assumptions (requires) of an exported method for the invariant sweep; the body is executed there
 	Inline    bool   // the spec only carries loop invariants: the function is inlined at every call site (e.g. it takes an iterator)
+	WideInt   bool   // 64-bit integer arithmetic of this function is treated as mathematical (stated assumption; narrower types are checked)
 	Logged    bool   // every call is recorded in the ghost log xcalls("<Func>") and its first result as cres("<Func>", i)
 	Nofault   bool
 	Reveal    []string // opaque pure functions whose definitions this proof may use
@@ -161,7 +162,7 @@ type parser struct {
 }
 
 var declKw = map[string]bool{"dialect": true, "use": true, "pure": true, "pred": true, "fold": true, "invariant": true,
-	"ghost": true, "lemma": true, "module": true, "props": true, "opaque": true, "reveal": true, "logged": true, "witness": true, "safe": true, "func": true, "ufun": true, "axiom": true, "nofault": true, "requires": true, "ensures": true, "cover": true, "loop": true, "frame": true, "trusted": true, "inline": true, "inputs": true, "view": true, "closure": true, "relies": true}
+	"ghost": true, "lemma": true, "module": true, "props": true, "opaque": true, "reveal": true, "logged": true, "witness": true, "safe": true, "func": true, "ufun": true, "axiom": true, "nofault": true, "requires": true, "ensures": true, "cover": true, "loop": true, "frame": true, "trusted": true, "inline": true, "inputs": true, "view": true, "closure": true, "relies": true, "wideint": true}
 
 func (p *parser) peek() token { return p.toks[p.pos] }
 func (p *parser) next() token { t := p.toks[p.pos]; p.pos++; return t }
@@ -402,6 +403,8 @@ func Parse(src string) (f *File, err error) {
 		case "view":
 			cur.ViewOf = p.ident()
 			cur.Trusted = true
+		case "wideint":
+			cur.WideInt = true
 		case "logged":
 			cur.Logged = true
 		case "nofault":
